@@ -262,7 +262,7 @@ func (x *h) Exec(line string, out func(string, string), st *hlib.Stats, work str
 		out(line, "fault:child-gone")
 		return
 	}
-	timeout := time.After(90 * time.Second)
+	timeout := time.After(45 * time.Second)
 	for {
 		select {
 		case l, ok := <-x.out:
@@ -450,16 +450,17 @@ type child struct {
 	grabs  int
 	pers   int
 
-	dir      string
-	unsafe   bool
-	path     string
-	cfg      bluge.Config
-	ic       index.Config
-	ds       *dirStats
-	writer   *index.Writer
-	wopen    bool
-	rootPtr  *index.Snapshot
-	liveRoot *index.Snapshot // the root as of the latest trace event (rootPtr: as of the latest EMITTED event)
+	dir          string
+	unsafe       bool
+	path         string
+	cfg          bluge.Config
+	ic           index.Config
+	ds           *dirStats
+	writer       *index.Writer
+	wopen        bool
+	rootPtr      *index.Snapshot
+	settleFailed bool
+	liveRoot     *index.Snapshot // the root as of the latest trace event (rootPtr: as of the latest EMITTED event)
 
 	snapName map[*index.Snapshot]string
 	wrapName map[interface{}]string
@@ -846,7 +847,13 @@ func (c *child) refsQuiet() bool {
 // merge in flight, statistics and trace unchanged over several polls, and nobody but the harness holds
 // the snapshots it looks at.
 func (c *child) settle() {
-	deadline := time.Now().Add(5 * time.Second)
+	// a healthy writer goes quiet within milliseconds; once a case has failed to settle (reference counts
+	// that never match: the protocol is broken) waiting again tells nothing new
+	budget := 3 * time.Second
+	if c.settleFailed {
+		budget = 150 * time.Millisecond
+	}
+	deadline := time.Now().Add(budget)
 	stable := 0
 	var last index.Stats
 	lastEv := -1
@@ -870,6 +877,7 @@ func (c *child) settle() {
 		time.Sleep(1500 * time.Microsecond)
 	}
 	c.stat("res:settle-timeout", 1)
+	c.settleFailed = true
 	if c.writer != nil && c.wopen {
 		s := c.writer.Stats()
 		c.mu.Lock()
